@@ -255,6 +255,11 @@ func newChecker(o *storage.LookupOptions, op *predicate.Predicate) *checker {
 // CheckGlobalTimeBounds checks if a predicate should be considered given the global
 // time bounds.
 func (c *checker) CheckGlobalTimeBounds(p *predicate.Predicate) bool {
+	if c.op != nil && c.op.Type() != p.Type() {
+		// The secondary indexes are keyed by predicate ID only; a query predicate
+		// never matches a stored predicate of the other kind.
+		return false
+	}
 	if p.Type() == predicate.Immutable {
 		return true
 	}
